@@ -9,6 +9,21 @@ verbatim after applying only the rules below; every application is counted in th
  R2  `pub(crate)` / `pub(super)` / `pub(in ..)` -> `pub`
  R3  statement macros in DROP_MACROS (debug assertions, logging, tracing) dropped;
      `measure!(e, ..)` -> `(e)` (air-utils: tracing span around an expression)
+ R4  `//@ expand <macro> <file>`: an invocation of a macro_rules! macro is replaced by its expansion, computed from the
+     macro's *definition in the source*. Single-arm macros with only `$x:expr` / `$x:ident` parameters are substituted
+     textually (original rule); single-arm macros that use repetitions `$( .. ) sep? (*|+|?)` or `literal`/`tt`/`block`
+     fragments go through the general matcher/transcriber below (GenMacro): `expr` fragments that are not a single token
+     tree are parenthesised (macro_rules keeps them as one expression node), `$crate` -> `crate`, nested invocations of
+     expandable macros inside an expansion are expanded again (compound! -> multiline!)
+ R5  `//@ fmt-shim` (opt-in per lift): std's formatting macros are replaced by calls of shim functions the unit template
+     declares, the format string cut at its placeholders:
+        format_args!(LIT, args..)   -> verif_format_args<N>(p0, &(a0), p1, .., &(aN-1), pN)
+        write!(D, LIT, args..)      -> (D).write_fmt(verif_format_args<N>(..))        [= std's definition of write!]
+        writeln!(D, LIT, args..)    -> (D).write_fmt(verif_format_args_nl<N>(..))     [= std's definition of writeln!]
+     where p0..pN are the literal pieces of LIT between its N placeholders (`{{`/`}}` unescaped) and a_k is the argument the
+     k-th placeholder names: `{}` the next positional argument, `{3}` the 3rd, `{x}` the named argument `x = e` or else the
+     captured variable `x`. The only format spec supported is a width taken from a variable, `{:w$}` / `{x:w$}`, in a literal
+     with a single placeholder: -> verif_format_args[_nl]_pad1(p0, &(a0), (w), p1). Anything else is a lost anchor.
  R7  parameter pattern `_: T` -> `_unused<k>: T`
  RW  unit-declared literal rewrites (`//@ rewrite n "from" => "to"`), each with its expected count;
      a count mismatch is a lost anchor
@@ -241,7 +256,8 @@ class Lift:
         self.no_canary = False
         self.stub = False      # emit `#[verifier::external_body] <signature> <contract> { unimplemented!() }` only
         self.pub_fields = False  # R2b: private named fields of a lifted struct become pub (visibility only)
-        self.expand = {}       # macro name -> (params, body) from its macro_rules! text (rule R4)
+        self.expand = {}       # macro name -> (params, body) | GenMacro from its macro_rules! text (rule R4)
+        self.fmt_shim = False  # R5: write!/writeln!/format_args! -> shim calls (opt-in)
         self.line = 0
 
     @property
@@ -351,6 +367,20 @@ def transform(src, lo, hi, lift, report, inserts=None, replaced=None, ret_at=Non
                 mname = '::'.join(path)
                 if jo <= hi and toks[jo].kind == 'punct' and toks[jo].text in '([{':
                     c = match_close(toks, jo)
+                    if (isinstance(lift.expand.get(mname), GenMacro)
+                            or (lift.fmt_shim and mname in FMT_MACROS)
+                            or (mname in lift.expand and _uses_tt_expansion(lift))):
+                        # R4 (general) / R5: the arguments go through the ordinary rules first, then the whole
+                        # invocation is expanded at token-tree level (nested expandable macros included)
+                        segs = transform(src, jo + 1, c - 1, lift, report, inserts, replaced) if c > jo + 1 else []
+                        inner = ''.join(x for x, _ in segs)
+                        where = '%s:%d' % (src.path, src.line_of(t.start))
+                        nodes = [('tok', 'ident', mname), ('tok', 'punct', '!'),
+                                 ('group', '(', tt_parse(inner, where), ')')]
+                        text = tt_render(expand_nodes(nodes, lift, report, where))
+                        out.append((text + _newlines(src.text[t.start:toks[c].end]), t.start))
+                        k = c + 1
+                        continue
                     if mname in lift.expand:
                         params, body = lift.expand[mname]
                         args = []
@@ -686,7 +716,8 @@ def load_macro(src, name):
             continue
         m = re.match(r'^\$([A-Za-z_][A-Za-z0-9_]*)\s*:\s*(?:expr|ident)$', part)
         if not m:
-            raise Lost('macro %s: unsupported fragment `%s`' % (name, part))
+            # repetitions / other fragment kinds: general matcher (additive; such macros used to be a lost anchor)
+            return load_macro_general(src, name, it)
         params.append(m.group(1))
     k2 = _next_code(toks, pc, it['end'])
     if toks[k2].text != '=>':
@@ -743,3 +774,519 @@ def check_measure_macro():
     if narms == 0:
         raise Lost('measure!: no arms found')
     _measure_checked[0] = True
+
+
+# ---------------------------------------------------------------------------------------------------------------
+# R4 (general macro_rules expansion) and R5 (formatting macros -> shim calls), both at token-tree level.
+# A token tree node is ('tok', kind, text) or ('group', open, [nodes], close).
+
+FMT_MACROS = ('write', 'writeln', 'format_args')
+_CLOSER = {'(': ')', '[': ']', '{': '}'}
+
+
+def _uses_tt_expansion(lift):
+    return lift.fmt_shim or any(isinstance(v, GenMacro) for v in lift.expand.values())
+
+
+def tt_parse(text, where):
+    try:
+        toks = [t for t in lex(text) if t.kind not in ('ws', 'comment')]
+    except LexError as e:
+        raise Lost('cannot lex macro text at %s: %s' % (where, e))
+    stack = [[]]
+    opens = []
+    for t in toks:
+        if t.kind == 'punct' and t.text in _CLOSER:
+            stack.append([])
+            opens.append(t.text)
+        elif t.kind == 'punct' and t.text in (')', ']', '}'):
+            if not opens or _CLOSER[opens[-1]] != t.text:
+                raise Lost('unbalanced brackets in macro text at %s' % where)
+            inner = stack.pop()
+            o = opens.pop()
+            stack[-1].append(('group', o, inner, t.text))
+        else:
+            stack[-1].append(('tok', t.kind, t.text))
+    if opens:
+        raise Lost('unbalanced brackets in macro text at %s' % where)
+    return stack[0]
+
+
+def tt_render(nodes):
+    out = []
+    for n in nodes:
+        if n[0] == 'tok':
+            out.append(n[2])
+        else:
+            inner = tt_render(n[2])
+            out.append(n[1] + (' ' + inner + ' ' if inner else '') + n[3])
+    return ' '.join(out)
+
+
+def _is_tok(n, text):
+    return n[0] == 'tok' and n[2] == text and n[1] != 'str'
+
+
+class GenMacro:
+    """a single-arm macro_rules! definition: matcher and transcriber as trees (read from the source at every run)"""
+
+    def __init__(self, name, matcher, body, where):
+        self.name, self.matcher, self.body, self.where = name, matcher, body, where
+
+
+_FRAGS = ('expr', 'ident', 'literal', 'tt', 'block')
+
+
+def _parse_matcher(nodes, where):
+    """-> items: ('lit', text) | ('frag', name, kind) | ('rep', items, sep|None, op) | ('group', open, items, close)"""
+    items = []
+    k = 0
+    while k < len(nodes):
+        n = nodes[k]
+        if _is_tok(n, '$'):
+            if k + 1 >= len(nodes):
+                raise Lost('%s: dangling `$` in macro matcher' % where)
+            n1 = nodes[k + 1]
+            if n1[0] == 'group' and n1[1] == '(':
+                inner = _parse_matcher(n1[2], where)
+                k += 2
+                sep = None
+                if k < len(nodes) and nodes[k][0] == 'tok' and nodes[k][2] not in ('*', '+', '?'):
+                    sep = nodes[k][2]
+                    k += 1
+                if k >= len(nodes) or nodes[k][0] != 'tok' or nodes[k][2] not in ('*', '+', '?'):
+                    raise Lost('%s: repetition without operator in macro matcher' % where)
+                items.append(('rep', inner, sep, nodes[k][2]))
+                k += 1
+                continue
+            if n1[0] == 'tok' and n1[1] == 'ident' and k + 3 < len(nodes) + 0 and _is_tok(nodes[k + 2], ':') \
+                    and nodes[k + 3][0] == 'tok' and nodes[k + 3][1] == 'ident':
+                kind = nodes[k + 3][2]
+                if kind not in _FRAGS:
+                    raise Lost('%s: unsupported macro fragment `$%s:%s`' % (where, n1[2], kind))
+                items.append(('frag', n1[2], kind))
+                k += 4
+                continue
+            raise Lost('%s: unsupported `$` form in macro matcher' % where)
+        if n[0] == 'group':
+            items.append(('group', n[1], _parse_matcher(n[2], where), n[3]))
+        else:
+            items.append(('lit', n[2]))
+        k += 1
+    return items
+
+
+def _parse_body(nodes, where):
+    """-> items: node | ('var', name) | ('rep', items, sep|None, op) | ('bgroup', open, items, close)"""
+    items = []
+    k = 0
+    while k < len(nodes):
+        n = nodes[k]
+        if _is_tok(n, '$') and k + 1 < len(nodes):
+            n1 = nodes[k + 1]
+            if n1[0] == 'group' and n1[1] == '(':
+                inner = _parse_body(n1[2], where)
+                k += 2
+                sep = None
+                if k < len(nodes) and nodes[k][0] == 'tok' and nodes[k][2] not in ('*', '+', '?'):
+                    sep = nodes[k][2]
+                    k += 1
+                if k >= len(nodes) or nodes[k][0] != 'tok' or nodes[k][2] not in ('*', '+', '?'):
+                    raise Lost('%s: repetition without operator in macro body' % where)
+                items.append(('rep', inner, sep, nodes[k][2]))
+                k += 1
+                continue
+            if n1[0] == 'tok' and n1[1] == 'ident':
+                items.append(('var', n1[2]))
+                k += 2
+                continue
+            raise Lost('%s: unsupported `$` form in macro body' % where)
+        if n[0] == 'group':
+            items.append(('bgroup', n[1], _parse_body(n[2], where), n[3]))
+        else:
+            items.append(n)
+        k += 1
+    return items
+
+
+def load_macro_general(src, name, it):
+    """R4, general form: `macro_rules! name { (matcher) => (body) [;] }` -- exactly one arm"""
+    toks = src.toks
+    where = '%s: macro %s' % (src.path, name)
+    k = _next_code(toks, it['body_open'], it['end'])
+    pc = match_close(toks, k)
+    k2 = _next_code(toks, pc, it['end'])
+    if toks[k2].text != '=>':
+        raise Lost('%s: unexpected shape' % where)
+    k3 = _next_code(toks, k2, it['end'])
+    if toks[k3].text not in _CLOSER:
+        raise Lost('%s: unexpected shape' % where)
+    bc = match_close(toks, k3)
+    k4 = _next_code(toks, bc, it['end'])
+    if k4 < it['end'] and toks[k4].text == ';':
+        k4 = _next_code(toks, k4, it['end'])
+    if k4 < it['end']:
+        raise Lost('%s has more than one arm' % where)
+    matcher = _parse_matcher(tt_parse(src.text[toks[k].end:toks[pc].start], where), where)
+    body = _parse_body(tt_parse(src.text[toks[k3].end:toks[bc].start], where), where)
+    return GenMacro(name, matcher, body, where)
+
+
+def _first_lit(items):
+    if items and items[0][0] == 'lit':
+        return items[0][1]
+    return None
+
+
+def _match_frag(kind, nodes, pos, where):
+    if pos >= len(nodes):
+        raise Lost('%s: macro input ends where a `%s` fragment is expected' % (where, kind))
+    n = nodes[pos]
+    if kind == 'tt':
+        return [n], pos + 1
+    if kind == 'ident':
+        if n[0] == 'tok' and n[1] == 'ident':
+            return [n], pos + 1
+        raise Lost('%s: expected an identifier in macro input' % where)
+    if kind == 'block':
+        if n[0] == 'group' and n[1] == '{':
+            return [n], pos + 1
+        raise Lost('%s: expected a block in macro input' % where)
+    if kind == 'literal':
+        if _is_tok(n, '-') and pos + 1 < len(nodes) and nodes[pos + 1][0] == 'tok' and nodes[pos + 1][1] == 'num':
+            return [n, nodes[pos + 1]], pos + 2
+        if n[0] == 'tok' and (n[1] in ('str', 'num', 'char') or n[2] in ('true', 'false')):
+            return [n], pos + 1
+        raise Lost('%s: expected a literal in macro input' % where)
+    # expr: up to the next `,` `;` `=>` at this nesting level (closures / `|` are refused: cannot be delimited lexically)
+    q = pos
+    while q < len(nodes) and not (nodes[q][0] == 'tok' and nodes[q][1] == 'punct' and nodes[q][2] in (',', ';', '=>')):
+        if nodes[q][0] == 'tok' and nodes[q][1] == 'punct' and nodes[q][2] in ('|', '||'):
+            raise Lost('%s: `|` inside an expr fragment of a macro invocation is not supported' % where)
+        q += 1
+    if q == pos:
+        raise Lost('%s: empty expr fragment in macro input' % where)
+    return nodes[pos:q], q
+
+
+def _match_items(items, nodes, pos, follow, where):
+    """match a matcher sequence against nodes[pos:]; returns (bindings, pos). bindings: name -> ('one', nodes, kind) | ('many', [bindings..])"""
+    b = {}
+    for idx, itm in enumerate(items):
+        nxt = _first_lit(items[idx + 1:]) or (follow if idx + 1 >= len(items) else None)
+        if itm[0] == 'lit':
+            if pos >= len(nodes) or nodes[pos][0] != 'tok' or nodes[pos][2] != itm[1]:
+                raise Lost('%s: macro input does not match the definition (expected `%s`)' % (where, itm[1]))
+            pos += 1
+        elif itm[0] == 'frag':
+            val, pos = _match_frag(itm[2], nodes, pos, where)
+            b[itm[1]] = ('one', val, itm[2])
+        elif itm[0] == 'group':
+            if pos >= len(nodes) or nodes[pos][0] != 'group' or nodes[pos][1] != itm[1]:
+                raise Lost('%s: macro input does not match the definition (expected `%s`)' % (where, itm[1]))
+            ib, ip = _match_items(itm[2], nodes[pos][2], 0, None, where)
+            if ip != len(nodes[pos][2]):
+                raise Lost('%s: macro input does not match the definition (extra tokens in group)' % where)
+            b.update(ib)
+            pos += 1
+        else:
+            _, inner, sep, op = itm
+            first = _first_lit(inner)
+            iters = []
+            while pos < len(nodes):
+                if iters and op == '?':
+                    break
+                if iters and sep is not None:
+                    if not (nodes[pos][0] == 'tok' and nodes[pos][2] == sep):
+                        break
+                    # a trailing separator followed by the follow token is not part of the repetition
+                    save = pos
+                    pos += 1
+                    try:
+                        ib, pos = _match_items(inner, nodes, pos, sep, where)
+                    except Lost:
+                        pos = save
+                        break
+                    iters.append(ib)
+                    continue
+                if first is not None:
+                    if not (nodes[pos][0] == 'tok' and nodes[pos][2] == first):
+                        break
+                elif nxt is not None and nodes[pos][0] == 'tok' and nodes[pos][2] == nxt:
+                    break
+                ib, pos = _match_items(inner, nodes, pos, sep if sep is not None else (first or nxt), where)
+                iters.append(ib)
+            if op == '+' and not iters:
+                raise Lost('%s: macro input does not match the definition (`+` repetition is empty)' % where)
+            names = set()
+            _matcher_names(inner, names)
+            for nm in names:
+                b[nm] = ('many', [ib.get(nm) for ib in iters])
+    return b, pos
+
+
+def _matcher_names(items, acc):
+    for itm in items:
+        if itm[0] == 'frag':
+            acc.add(itm[1])
+        elif itm[0] in ('rep', 'group'):
+            _matcher_names(itm[1] if itm[0] == 'rep' else itm[2], acc)
+
+
+def _body_vars(items, acc):
+    for itm in items:
+        if itm[0] == 'var':
+            acc.add(itm[1])
+        elif itm[0] == 'rep':
+            _body_vars(itm[1], acc)
+        elif itm[0] == 'bgroup':
+            _body_vars(itm[2], acc)
+
+
+def _transcribe(items, b, where):
+    out = []
+    for itm in items:
+        if itm[0] == 'var':
+            if itm[1] == 'crate':
+                out.append(('tok', 'ident', 'crate'))       # the generated file is one crate
+                continue
+            v = b.get(itm[1])
+            if v is None:
+                raise Lost('%s: `$%s` is not bound by the macro matcher' % (where, itm[1]))
+            if v[0] != 'one':
+                raise Lost('%s: `$%s` used at the wrong repetition depth' % (where, itm[1]))
+            val = v[1]
+            if v[2] == 'expr' and len(val) > 1:
+                out.append(('group', '(', list(val), ')'))  # an expr fragment stays one expression
+            else:
+                out.extend(val)
+        elif itm[0] == 'rep':
+            _, inner, sep, op = itm
+            used = set()
+            _body_vars(inner, used)
+            drivers = [nm for nm in used if nm in b and b[nm][0] == 'many']
+            if not drivers:
+                raise Lost('%s: repetition in macro body has no repeating variable' % where)
+            n = len(b[drivers[0]][1])
+            if any(len(b[nm][1]) != n for nm in drivers):
+                raise Lost('%s: repetition variables of different lengths in macro body' % where)
+            for i in range(n):
+                bi = dict(b)
+                for nm in drivers:
+                    bi[nm] = b[nm][1][i]
+                if i > 0 and sep is not None:
+                    out.append(('tok', 'punct', sep))
+                out.extend(_transcribe(inner, bi, where))
+        elif itm[0] == 'bgroup':
+            out.append(('group', itm[1], _transcribe(itm[2], b, where), itm[3]))
+        else:
+            out.append(itm)
+    return out
+
+
+def _split_commas(nodes):
+    parts, cur = [], []
+    for n in nodes:
+        if n[0] == 'tok' and n[1] == 'punct' and n[2] == ',':
+            parts.append(cur)
+            cur = []
+        else:
+            cur.append(n)
+    if cur or parts:
+        parts.append(cur)
+    if parts and not parts[-1]:
+        parts.pop()      # trailing comma
+    return parts
+
+
+def expand_nodes(nodes, lift, report, where, depth=0):
+    """expand, inside a token tree, every invocation of an `//@ expand` macro and (with `//@ fmt-shim`) of the formatting macros"""
+    if depth > 16:
+        raise Lost('%s: macro expansion too deep' % where)
+    out = []
+    k = 0
+    while k < len(nodes):
+        n = nodes[k]
+        if n[0] == 'group':
+            out.append(('group', n[1], expand_nodes(n[2], lift, report, where, depth), n[3]))
+            k += 1
+            continue
+        if n[1] == 'ident' and k + 2 < len(nodes) and _is_tok(nodes[k + 1], '!') and nodes[k + 2][0] == 'group' \
+                and not (out and out[-1][0] == 'tok' and out[-1][2] == '::'):
+            mname, args = n[2], nodes[k + 2][2]
+            mac = lift.expand.get(mname)
+            if mac is not None:
+                mwhere = '%s: %s!' % (where, mname)
+                if isinstance(mac, GenMacro):
+                    b, pos = _match_items(mac.matcher, args, 0, None, mwhere)
+                    if pos != len(args):
+                        raise Lost('%s: macro input does not match the definition (extra tokens)' % mwhere)
+                    res = _transcribe(mac.body, b, mwhere)
+                else:
+                    params, body = mac
+                    parts = _split_commas(args)
+                    if len(parts) != len(params):
+                        raise Lost('macro %s! called with %d arguments, definition has %d (%s)' % (mname, len(parts), len(params), where))
+                    b = {pn: ('one', pv, 'expr') for pn, pv in zip(params, parts)}
+                    res = _transcribe(_parse_body(tt_parse(body, mwhere), mwhere), b, mwhere)
+                report['R4.' + mname] = report.get('R4.' + mname, 0) + 1
+                out.extend(expand_nodes(res, lift, report, where, depth + 1))
+                k += 3
+                continue
+            if lift.fmt_shim and mname in FMT_MACROS:
+                args = expand_nodes(args, lift, report, where, depth)
+                out.extend(fmt_shim_call(mname, args, report, where))
+                k += 3
+                continue
+        out.append(n)
+        k += 1
+    return out
+
+
+def _str_value(tok_text, where):
+    """the value of a Rust string literal token"""
+    m = re.match(r'^r(#*)"(.*)"\1$', tok_text, re.S)
+    if m:
+        return m.group(2)
+    if not (tok_text.startswith('"') and tok_text.endswith('"')):
+        raise Lost('%s: format string is not a plain string literal: %s' % (where, tok_text[:40]))
+    body = tok_text[1:-1]
+    out = []
+    i = 0
+    simple = {'n': '\n', 'r': '\r', 't': '\t', '\\': '\\', '0': '\0', '"': '"', "'": "'"}
+    while i < len(body):
+        ch = body[i]
+        if ch != '\\':
+            out.append(ch)
+            i += 1
+            continue
+        e = body[i + 1]
+        if e in simple:
+            out.append(simple[e])
+            i += 2
+        elif e == 'x':
+            out.append(chr(int(body[i + 2:i + 4], 16)))
+            i += 4
+        elif e == 'u':
+            j = body.index('}', i)
+            out.append(chr(int(body[i + 3:j].replace('_', ''), 16)))
+            i = j + 1
+        elif e == '\n':
+            i += 2
+            while i < len(body) and body[i].isspace():
+                i += 1
+        else:
+            raise Lost('%s: unknown escape `\\%s` in format string' % (where, e))
+    return ''.join(out)
+
+
+def _str_literal(value):
+    out = ['"']
+    for ch in value:
+        if ch == '\\':
+            out.append('\\\\')
+        elif ch == '"':
+            out.append('\\"')
+        elif ch == '\n':
+            out.append('\\n')
+        elif ch == '\r':
+            out.append('\\r')
+        elif ch == '\t':
+            out.append('\\t')
+        elif ord(ch) < 0x20 or ord(ch) == 0x7f:
+            out.append('\\u{%x}' % ord(ch))
+        else:
+            out.append(ch)
+    out.append('"')
+    return ''.join(out)
+
+
+def fmt_shim_call(mname, args, report, where):
+    """R5: see the module docstring"""
+    where = '%s: %s!' % (where, mname)
+    parts = _split_commas(args)
+    dst = None
+    if mname in ('write', 'writeln'):
+        if len(parts) < 2:
+            raise Lost('%s without a format string is not supported' % where)
+        dst, parts = parts[0], parts[1:]
+    if not parts or len(parts[0]) != 1 or parts[0][0][0] != 'tok' or parts[0][0][1] != 'str':
+        raise Lost('%s: the format string must be a string literal' % where)
+    lit = _str_value(parts[0][0][2], where)
+    positional, named = [], {}
+    for p in parts[1:]:
+        if len(p) >= 3 and p[0][0] == 'tok' and p[0][1] == 'ident' and _is_tok(p[1], '=') and not _is_tok(p[2], '='):
+            named[p[0][2]] = p[2:]
+        else:
+            if named:
+                raise Lost('%s: positional argument after a named one' % where)
+            positional.append(p)
+    pieces, phs = [], []
+    cur = []
+    i = 0
+    while i < len(lit):
+        ch = lit[i]
+        if ch == '{':
+            if lit.startswith('{{', i):
+                cur.append('{')
+                i += 2
+                continue
+            j = lit.find('}', i)
+            if j < 0:
+                raise Lost('%s: unterminated placeholder in format string' % where)
+            pieces.append(''.join(cur))
+            cur = []
+            phs.append(lit[i + 1:j])
+            i = j + 1
+        elif ch == '}':
+            if lit.startswith('}}', i):
+                cur.append('}')
+                i += 2
+                continue
+            raise Lost('%s: stray `}` in format string' % where)
+        else:
+            cur.append(ch)
+            i += 1
+    pieces.append(''.join(cur))
+
+    def var(name):
+        return named[name] if name in named else [('tok', 'ident', name)]
+
+    next_pos = 0
+    argv, width = [], None
+    for ph in phs:
+        arg, _, spec = ph.partition(':')
+        arg, spec = arg.strip(), spec.strip()
+        if arg == '':
+            if next_pos >= len(positional):
+                raise Lost('%s: not enough arguments for the format string' % where)
+            argv.append(positional[next_pos])
+            next_pos += 1
+        elif arg.isdigit():
+            if int(arg) >= len(positional):
+                raise Lost('%s: positional argument %s out of range' % (where, arg))
+            argv.append(positional[int(arg)])
+        elif re.match(r'^[A-Za-z_][A-Za-z0-9_]*$', arg):
+            argv.append(var(arg))
+        else:
+            raise Lost('%s: unsupported placeholder `{%s}`' % (where, ph))
+        if spec:
+            m = re.match(r'^([A-Za-z_][A-Za-z0-9_]*)\$$', spec)
+            if not m or len(phs) != 1:
+                raise Lost('%s: unsupported format spec `{%s}`' % (where, ph))
+            width = var(m.group(1))
+    nl = '_nl' if mname == 'writeln' else ''
+    call = [('tok', 'ident', 'verif_format_args%s%s' % (nl, '_pad1' if width is not None else str(len(argv))))]
+    inner = []
+    for idx, a in enumerate(argv):
+        inner += [('tok', 'str', _str_literal(pieces[idx])), ('tok', 'punct', ','),
+                  ('tok', 'punct', '&'), ('group', '(', list(a), ')'), ('tok', 'punct', ',')]
+        if width is not None:
+            inner += [('group', '(', list(width), ')'), ('tok', 'punct', ',')]
+    inner.append(('tok', 'str', _str_literal(pieces[-1])))
+    call.append(('group', '(', inner, ')'))
+    report['R5.' + mname] = report.get('R5.' + mname, 0) + 1
+    if dst is None:
+        return call
+    recv = dst if len(dst) == 1 else [('group', '(', list(dst), ')')]
+    return recv + [('tok', 'punct', '.'), ('tok', 'ident', 'write_fmt'), ('group', '(', call, ')')]
